@@ -309,7 +309,7 @@ Lemma multiplier_sum_nonpos G F np l : forall ds,
   feasible np l G F -> dual_feasible (combine l ds) -> length ds = length l ->
   multiplier_sum G F (combine l ds) <= 0.
 Proof.
-  intros ds [_ Hfe]. revert ds. induction l as [|it l IH]; intros ds Hdf Hlen; [cbn; lra|].
+  intros ds [_ [_ Hfe]]. revert ds. induction l as [|it l IH]; intros ds Hdf Hlen; [cbn; lra|].
   destruct ds as [|d ds]; [discriminate|]. cbn [length] in Hlen. injection Hlen as Hlen.
   inversion Hfe as [|? ? Hit Hfe']; subst. cbn [combine] in *.
   destruct it as [e s|m], d as [la|Sm]; cbn [dual_feasible multiplier_sum] in *; try (destruct s; tauto); try tauto.
@@ -329,7 +329,7 @@ Theorem weak_duality :
     forall G F, feasible np tracked G F -> evalGF G F obj <= tau.
 Proof.
   intros np obj tracked duals res tau Hlen Hid Hdf Hres G F Hfe.
-  pose proof (Hid G F (proj1 (proj1 Hfe))) as H.
+  pose proof (Hid G F (proj1 Hfe)) as H.
   pose proof (multiplier_sum_nonpos G F np tracked duals Hfe Hdf Hlen) as H1.
-  pose proof (psd_pairing_nonneg res G np Hres (proj1 Hfe)) as H2. lra.
+  pose proof (psd_pairing_nonneg res G np Hres (proj1 (proj2 Hfe))) as H2. lra.
 Qed.
